@@ -276,6 +276,8 @@ def trunc(a, w):
     if a.w == w:
         return a
     assert w < a.w
+    if a.op == "ring" and len(a.aux) <= RING_EXPAND_LIMIT:
+        return mk_ring(w, dict(a.aux))  # truncation is a ring homomorphism: the same polynomial mod 2^w
     c, e = aff_parts(a)
     return mk_aff(w, c & mask(w), {at: _relayout(p, a.w, w, at.w) for at, p in e.items()})
 
@@ -370,6 +372,14 @@ def to_poly(t):
         d = _aff_as_disjoint(t)
         if d is not None:
             return d
+        # !x = -x - 1
+        if t.aux[0] == mask(w) and w > 1:
+            lin = xor(t, const(mask(w), w))
+            if lin.op != "const":
+                pl = to_poly(lin)
+                out = {k_: (-v_) & mask(w) for k_, v_ in pl.items()}
+                out[()] = (out.get((), 0) + mask(w)) & mask(w)
+                return out
         # constant bits outside everything the linear part can set add like an ordinary summand
         c0 = t.aux[0]
         if c0:
